@@ -339,7 +339,11 @@ def ctrl_case(ctx, p):
                            (['#', '!=', 'zq', '[', ']', '{', 'FALSE', '}', '#'], 'comment that looks like a macro definition'),
                            (['#', '~', '{', 'true', '}', '#'], 'comment that looks like a comptime block'),
                            (['"', '~!', '"'], 'comment holding a lone comptime marker'),
-                           (['#', '}', 'else', '{', '#'], 'comment holding clause tokens')):
+                           (['#', '}', 'else', '{', '#'], 'comment holding clause tokens'),
+                           (['#', '"', '#'], 'hash comment holding a lone double quote'),
+                           (['"', '#', '"'], 'quote comment holding a lone hash'),
+                           (["'", '#', '"', "'"], 'apostrophe comment holding the two other delimiters'),
+                           (['#', "'", 'x', '#'], 'hash comment holding a lone apostrophe')):
             n += 1
             src = ' '.join(toks[:g] + com + toks[g:])
             ctx.state((src,))
